@@ -232,6 +232,29 @@ pub fn gen_closure_scenario(rng: &mut Prng) -> (Module, String) {
                 cards.push(un("ret", closure(&[], vec![un("ret", bin("mul", read("v"), int(tag)))])));
                 func(&[], cards)
             };
+            if rng.chance(1, 2) {
+                // the same, between two (or three) functions of one module: the card path of the closure is identical,
+                // only the function differs
+                let n = rng.range(2, 3);
+                let mut root = Module::default();
+                let tags: Vec<i64> = (0..n).map(|i| tag_a + 7 * i).collect();
+                for (i, t) in tags.iter().enumerate() {
+                    fns.push((format!("mk{i}"), mk(*t)));
+                    main.push(set(&format!("c{i}"), call(&format!("mk{i}"), vec![])));
+                }
+                for i in (0..n as usize).chain(0..1) {
+                    main.push(log(dyncall(read(&format!("c{i}")), vec![])));
+                }
+                let mainf = func(&[], main);
+                if rng.chance(1, 2) {
+                    root.functions.push(("main".into(), mainf));
+                    root.functions.extend(fns);
+                } else {
+                    root.functions.extend(fns);
+                    root.functions.push(("main".into(), mainf));
+                }
+                return (root, "same-card-position-in-two-functions".to_string());
+            }
             let main_first = rng.chance(1, 2);
             let mut libm = Module::default();
             if main_first {
@@ -530,7 +553,25 @@ pub fn gen_host_gc_scenario(rng: &mut Prng) -> (Module, String) {
     };
     fns.push(("mk".into(), func(&["m"], vec![set("_", nil()), set("s", native("concat", vec![strc("made"), int(1)])), un("ret", native("pair", vec![read("s"), read("m")]))])));
     let n = rng.range(1, 6);
-    let name = match rng.below(5) {
+    let name = match rng.below(6) {
+        5 => {
+            // the host obtains a closure from a script function and calls it at once; the closure allocates and then
+            // reads what it captured
+            fns.push((
+                "mkc".into(),
+                func(
+                    &[],
+                    vec![
+                        set("_", nil()),
+                        set("s", native("concat", vec![strc("cap"), int(1)])),
+                        un("ret", closure(&["m"], vec![set("t", native("pair", vec![read("s"), read("m")])), set("u", native("concat", vec![read("s"), read("m")])), un("ret", native("pair", vec![read("t"), read("u")]))])),
+                    ],
+                ),
+            ));
+            let c = native("chain2", vec![CardBody::Function("mkc".into()).into(), tmp(rng, "x")]);
+            main.push(repeat(int(n), Some("i"), comp(vec![set("_", nil()), log(c)])));
+            "host-gc:closure-from-factory"
+        }
         0 => {
             let c = native("wrap1", vec![tmp(rng, "a")]);
             main.push(repeat(int(n), Some("i"), comp(vec![set("_", nil()), log(c)])));
